@@ -335,9 +335,9 @@ EXPECTED_GUARDS_PLAIN = {'iseye': (['len(_) != 2 or _[0] != _[1]'], []),
 EXPECTED_SOFT = {'iseye': {'calls': ['eye', 'len', 'norm'], 'consts': ['0', '1', '10', '2'], 'raises': []},
  'isunittwist': {'calls': ['getvector', 'isunitvec', 'len', 'norm'], 'consts': ['0', '10', '3', '6'], 'raises': ['ValueError']},
  'isunittwist2': {'calls': ['abs', 'getvector', 'isunitvec', 'len'], 'consts': ['0', '10', '2', '3'], 'raises': ['ValueError']},
- 'isunitvec': {'calls': ['abs', 'norm'], 'consts': ['1', '10'], 'raises': []},
+ 'isunitvec': {'calls': ['_asdouble', 'abs', 'norm'], 'consts': ['1', '10'], 'raises': []},
  'iszero': {'calls': ['abs'], 'consts': ['10'], 'raises': []},
- 'iszerovec': {'calls': ['norm'], 'consts': ['10'], 'raises': []},
+ 'iszerovec': {'calls': ['_asdouble', 'norm'], 'consts': ['10'], 'raises': []},
  'rodrigues': {'calls': ['ValueError', 'cos', 'eye', 'getvector', 'iszerovec', 'len', 'sin', 'skew', 'unitvec_norm'],
                'consts': ['0', '1', '1.0', '2', '3'],
                'raises': ['ValueError']},
@@ -1687,6 +1687,7 @@ def run(ctx):
         ctx.fail('gen:compile', 'generated traces do not compile: ' + err[-800:], no_input=True)
         return
     ctx.prove('theories/Props/C03.v')
+    ctx.prove('theories/Props/C03_ode.v')     # trexp solves the ODE defining exp (Coquelicot derivatives; Model/C03_Ode.v)
     with ctx.timed('correspond'):
         sym_num(ctx, g, MOD, 1500 if ctx.stats.get('tconst:restructured') else ctx.n(40, 1500))
     with ctx.timed('oracle'):
